@@ -56,9 +56,18 @@ Next == /\ nops < MaxOps
              /\ InFragment(a)
              /\ LET r == Apply(st, a) IN st' = r.st /\ res' = [err |-> r.err, gc |-> r.gc]
              /\ act' = a
-             /\ hist' = Append(hist, [a |-> a, err |-> Apply(st, a).err, gc |-> Apply(st, a).gc])
+             /\ hist' = Append(hist, [a |-> a, err |-> res'.err, gc |-> res'.gc])
         /\ nops' = nops + 1
 Spec == Init /\ [][Next]_vars
+\* simulation (behaviour generation): one randomly chosen statement per step instead of all successors
+FragStmts == {a \in Stmts : InFragment(a)}
+SimNext == /\ nops < MaxOps
+           /\ LET a == RandomElement(FragStmts)
+                  r == Apply(st, a)
+              IN st' = r.st /\ res' = [err |-> r.err, gc |-> r.gc] /\ act' = a
+                 /\ hist' = Append(hist, [a |-> a, err |-> r.err, gc |-> r.gc])
+           /\ nops' = nops + 1
+SimSpec == Init /\ [][SimNext]_vars
 
 View == st
 RefinesInv == Refines(st)
